@@ -6,6 +6,7 @@
 #include "../kit/operands.hpp"
 #include <boost/multi/adaptors/mpi.hpp>
 #include <set>
+#include <optional>
 using namespace vk;
 
 #ifndef C18_T
@@ -48,7 +49,12 @@ struct MpiVis {
 		constexpr int D = rank_of<V>; if(m.has_zero()) return; L const N = m.n(); if(N > 4000) return;
 		std::string const K = "C18:"; std::size_t const live0 = tl().created.size();
 		{
-			op("message(source)"); mpi::message<> msg(v.elements());
+			// the four documented ways to build the same message (the skeleton forms move the committed datatype handle)
+			int const form = int(g->below(4)); static char const* FN[] = {"message(elements)", "message(buf,skeleton&&)", "message(buf,move(named skeleton))", "message(buf,layout,datatype)"};
+			op(FN[form]); count(std::string("form:") + FN[form]); sig_mix(std::uint64_t(form)); std::optional<mpi::message<>> msgo; void* const bp = const_cast<void*>(static_cast<void const*>(v.elements().base()));
+			switch(form) { case 0: msgo.emplace(v.elements()); break; case 1: msgo.emplace(bp, mpi::skeleton<void, int>(v.elements().layout(), mpi::datatype<T>)); break;
+				case 2: { mpi::skeleton<void, int> sk(v.elements().layout(), mpi::datatype<T>); msgo.emplace(bp, std::move(sk)); break; } default: msgo.emplace(bp, v.elements().layout(), mpi::datatype<T>); break; }
+			mpi::message<>& msg = *msgo;
 			// (1) MPI_Pack of the message == the canonical element sequence
 			std::vector<char> pk(std::size_t(N) * sizeof(T) + 64, char(0x5A)); int pos = 0; op("MPI_Pack");
 			MPI_Pack(msg.buffer(), msg.count(), msg.datatype(), pk.data(), int(pk.size()), &pos, MPI_COMM_SELF);
